@@ -210,7 +210,7 @@ func runC34(c *Ctx) {
 			fld := c.Field("internal/cluster", "cluster", pr.fld)
 			var seenObj types.Object
 			for _, a := range f.Find(func(nd ast.Node) bool { _, _, _, ok := commaOkLookup(info, nd, fld); return ok }) {
-				if _, o, _, _ := commaOkLookup(info, a.N, fld); o != nil && o.Name() == "seen" {
+				if _, o, _, _ := commaOkLookup(info, a.N, fld); o != nil {
 					seenObj = o
 				}
 			}
